@@ -463,7 +463,9 @@ pub fn gen(ctx: &Ctx) -> Vec<Value> {
             if ctx.thorough() && r2.chance(1, 4) {
                 let m2 = &muts[r2.usize(muts.len())];
                 let moderate = !(m2.class.contains("max") || m2.class.contains("min"));
-                if moderate && m2.path != m.path && !m.class.contains("max") {
+                let n = m.path.len().min(m2.path.len());
+                let nested = m.path[..n] == m2.path[..n]; // one site inside the other: the second write could miss
+                if moderate && !nested && !m.class.contains("max") {
                     *at_mut(&mut view, &m2.path) = m2.new.clone();
                     class = format!("{}&{}", class, m2.class);
                     where_ = format!("{}&{}", where_, path_text(&m2.path));
